@@ -341,7 +341,15 @@ def subprocess_lib(I):
     def kill(I_, self):
         self.attrs["_g_kills"] = self.attrs["_g_kills"] + 1
 
-    Proc = Class("Popen", (), {"poll": meth(poll), "communicate": meth(communicate), "kill": meth(kill)}, None, "user")
+    def terminate(I_, self):
+        # SIGTERM is a request: the child may ignore it; only kill() is counted as ending the process
+        self.attrs["_g_terms"] = self.attrs.get("_g_terms", 0) + 1
+
+    def send_signal(I_, self, sig=None):
+        self.attrs["_g_terms"] = self.attrs.get("_g_terms", 0) + 1
+
+    Proc = Class("Popen", (), {"poll": meth(poll), "communicate": meth(communicate), "kill": meth(kill),
+                               "terminate": meth(terminate), "send_signal": meth(send_signal)}, None, "user")
 
     def popen(I_, a, k):
         I_.ghost["popen_cwd"] = I_.ghost.get("cwd")
